@@ -338,7 +338,7 @@ func runC04(c *Ctx) {
 			}
 			for _, lab := range expanded {
 				nSites++
-				ok, why := false, ""
+				ok, why, badWhy := false, "", ""
 				switch fname {
 				case "walkNode":
 					switch lab {
@@ -353,7 +353,15 @@ func runC04(c *Ctx) {
 						call := n.(*ast.CallExpr)
 						last := call.Args[len(call.Args)-1]
 						if s, isC := constString(info, last); isC && s == "__name__" {
-							ok, why = true, "aggregation drops the metric name"
+							// Prometheus (engine.generateGroupingLabels) deletes the metric
+							// name for without(...) and for no grouping, but keeps it
+							// when it is listed in by(...): the exclusion has to consult
+							// the grouping.
+							if strings.Contains(g, ".Grouping") {
+								ok, why = true, "aggregation drops the metric name unless by(__name__) keeps it"
+							} else {
+								badWhy = "the metric name is excluded for every " + strings.ToLower(lab) + "(...) without consulting the grouping, but Prometheus keeps __name__ when it is listed in by(...): `" + strings.ToLower(lab) + " by(__name__)(m)` with a template using $labels.__name__ gets a false `non-existent label` report"
+							}
 						}
 					}
 				case "parseAggregation":
@@ -383,6 +391,10 @@ func runC04(c *Ctx) {
 				if g != "" {
 					key += " if " + g
 				}
+				if badWhy != "" {
+					c.Bad("C04-R3", key, n.Pos(), badWhy)
+					continue
+				}
 				c.Check(ok, "C04-R3", key, n.Pos(), why,
 					"the label set is narrowed ("+kind+") in a context where PromQL keeps the labels ("+fname+", case "+strq(lab)+", guard "+strq(g)+"): CanHaveLabel can become false for a label the results do carry, i.e. a false `non-existent label` report")
 			}
@@ -397,6 +409,29 @@ func runC04(c *Ctx) {
 				switch cs.Caller.Obj.Name() {
 				case "walkNode", "walkAggregation", "parseAggregation", "parsePromQLFunc", "parseCall", "parseBinOps":
 				default:
+					// a helper that drops the metric name only when by(...) does not keep it
+					if h == "excludeLabel" && len(cs.Call.Args) >= 4 {
+						cinfo := cs.Caller.Pkg.TypesInfo
+						if s, isC := constString(cinfo, cs.Call.Args[len(cs.Call.Args)-1]); isC && s == "__name__" {
+							consults := false
+							for _, a := range lexicalGuards(parentMap(cs.Caller.Decl.Body), cs.Call, cs.Caller.Decl.Body) {
+								if strings.Contains(exprStr(a.E), ".Grouping") {
+									consults = true
+								}
+							}
+							// or an earlier early return guarded by the grouping
+							ast.Inspect(cs.Caller.Decl.Body, func(m ast.Node) bool {
+								if ifs, ok := m.(*ast.IfStmt); ok && ifs.End() < cs.Call.Pos() && strings.Contains(exprStr(ifs.Cond), ".Grouping") && containsBranch(ifs.Body) {
+									consults = true
+								}
+								return true
+							})
+							if consults {
+								c.Ok("C04-R3", h+" called from "+cs.Caller.Name, cs.Call.Pos(), "metric name dropped unless by(__name__) keeps it")
+								continue
+							}
+						}
+					}
 					c.Bad("C04-R3", h+" called from "+cs.Caller.Name, cs.Call.Pos(), "label narrowing outside the analysed transfer functions")
 				}
 			}
@@ -480,6 +515,8 @@ func runC12(c *Ctx) {
 	c04Exhaustive(c, "C12")
 	c04Ownership(c, "C12-R6")
 	c12JoinOperands(c, "C12-R7")
+	c.Rule("C12-R8", "AlwaysReturns does not survive filtering set operators", 1)
+	c12AlwaysReturns(c, "C12-R8")
 
 	// ---- R3 ----
 	up := p.Pkg("internal/parser/utils")
